@@ -79,7 +79,7 @@ Print Assumptions gen_eigcorr_get_inverse_roots_eq_model.
 (* GenC01.*_path give, as a function of the hyperparameter tests, the tags of the torch._foreach_* statements that run (each
    statement is identified by its exact source text in harness/gen_targets.py).  `run_*` below states what each tagged
    statement does to the vectors of one block; running the generated path is the model's l2_grad / decoupled decay /
-   momentum_step, for every configuration and every vectors.  (The test `x != 0.0` is the model's `nz`.) *)
+   momentum_step, for every configuration and every vectors.  (The test `x != 0.0` is the model's `nz`, `x == 0.0` its negation.) *)
 Section StepPaths.
   Context {F : Type} (Op : ops F).
 
@@ -88,7 +88,7 @@ Section StepPaths.
     fold_left (fun g a => if a =? 0 then vaxpy Op g (c_wd c) w else g) acts g.
 
   Lemma gen_add_l2_regularization_path_eq_model_ (c : cfg (F:=F)) (w g : vec) :
-    match GenC01.add_l2_regularization_path (nz Op (c_wd c)) (c_decoupled c) with
+    match GenC01.add_l2_regularization_path (nz Op (c_wd c)) (negb (nz Op (c_wd c))) (c_decoupled c) with
     | Ret (acts, _) => run_l2 c w acts g = l2_grad Op c w g
     | _ => False
     end.
@@ -97,7 +97,7 @@ Section StepPaths.
   (* _apply_decoupled_weight_decay: 0 = torch._foreach_add_(search_directions, params, alpha=weight_decay);
      in Optimizer.block_step: P := if nz wd && decoupled then vaxpy P wd w else P *)
   Lemma gen_apply_decoupled_weight_decay_path_eq_model_ (c : cfg (F:=F)) (w P : vec) :
-    match GenC01.apply_decoupled_weight_decay_path (nz Op (c_wd c)) (c_decoupled c) with
+    match GenC01.apply_decoupled_weight_decay_path (nz Op (c_wd c)) (negb (nz Op (c_wd c))) (c_decoupled c) with
     | Ret (acts, _) => run_l2 c w acts P = (if nz Op (c_wd c) && c_decoupled c then vaxpy Op P (c_wd c) w else P)
     | _ => False
     end.
@@ -116,7 +116,7 @@ Section StepPaths.
                  else mp) acts MP.
 
   Lemma gen_update_momentum_path_eq_model_ (c : cfg (F:=F)) (M P : vec) :
-    match GenC01.update_momentum_path (nz Op (c_mom c)) (c_nesterov c) with
+    match GenC01.update_momentum_path (nz Op (c_mom c)) (negb (nz Op (c_mom c))) (c_nesterov c) with
     | Ret (acts, _) => run_momentum c acts (M, P) = (snd (momentum_step Op c M P), fst (momentum_step Op c M P))
     | _ => False
     end.
@@ -125,7 +125,7 @@ End StepPaths.
 
 Theorem gen_add_l2_regularization_path_eq_model :
   forall F (Op : ops F) (c : cfg (F:=F)) (w g : vec),
-  match GenC01.add_l2_regularization_path (nz Op (c_wd c)) (c_decoupled c) with
+  match GenC01.add_l2_regularization_path (nz Op (c_wd c)) (negb (nz Op (c_wd c))) (c_decoupled c) with
   | Ret (acts, _) => run_l2 Op c w acts g = l2_grad Op c w g
   | _ => False
   end.
@@ -134,7 +134,7 @@ Print Assumptions gen_add_l2_regularization_path_eq_model.
 
 Theorem gen_apply_decoupled_weight_decay_path_eq_model :
   forall F (Op : ops F) (c : cfg (F:=F)) (w P : vec),
-  match GenC01.apply_decoupled_weight_decay_path (nz Op (c_wd c)) (c_decoupled c) with
+  match GenC01.apply_decoupled_weight_decay_path (nz Op (c_wd c)) (negb (nz Op (c_wd c))) (c_decoupled c) with
   | Ret (acts, _) => run_l2 Op c w acts P = (if nz Op (c_wd c) && c_decoupled c then vaxpy Op P (c_wd c) w else P)
   | _ => False
   end.
@@ -143,7 +143,7 @@ Print Assumptions gen_apply_decoupled_weight_decay_path_eq_model.
 
 Theorem gen_update_momentum_path_eq_model :
   forall F (Op : ops F) (c : cfg (F:=F)) (M P : vec),
-  match GenC01.update_momentum_path (nz Op (c_mom c)) (c_nesterov c) with
+  match GenC01.update_momentum_path (nz Op (c_mom c)) (negb (nz Op (c_mom c))) (c_nesterov c) with
   | Ret (acts, _) => run_momentum Op c acts (M, P) = (snd (momentum_step Op c M P), fst (momentum_step Op c M P))
   | _ => False
   end.
@@ -174,7 +174,7 @@ Section FilterPath.
                  else st) acts st.
 
   Lemma gen_compute_filtered_grad_list_path_eq_model_ (c : cfg (F:=F)) (t : Z) (h : hints) (m g : vec) :
-    match GenC01.compute_filtered_grad_list_path (nz Op (c_beta1 c)) (negb (feqb Op (c_beta3 c) (c_beta1 c))) (feqb Op (c_beta3 c) (c_beta1 c)) (c_biascorr c) with
+    match GenC01.compute_filtered_grad_list_path (nz Op (c_beta1 c)) (negb (nz Op (c_beta1 c))) (negb (feqb Op (c_beta3 c) (c_beta1 c))) (feqb Op (c_beta3 c) (c_beta1 c)) (c_biascorr c) with
     | Ret (acts, _) => let '(used, m') := run_filter c t h g acts (None, m) in (fg_value used m', m') = filter_grad Op c t h m g
     | _ => False
     end.
@@ -186,9 +186,59 @@ End FilterPath.
 
 Theorem gen_compute_filtered_grad_list_path_eq_model :
   forall F (Op : ops F) (c : cfg (F:=F)) (t : Z) (h : hints) (m g : vec),
-  match GenC01.compute_filtered_grad_list_path (nz Op (c_beta1 c)) (negb (feqb Op (c_beta3 c) (c_beta1 c))) (feqb Op (c_beta3 c) (c_beta1 c)) (c_biascorr c) with
+  match GenC01.compute_filtered_grad_list_path (nz Op (c_beta1 c)) (negb (nz Op (c_beta1 c))) (negb (feqb Op (c_beta3 c) (c_beta1 c))) (feqb Op (c_beta3 c) (c_beta1 c)) (c_biascorr c) with
   | Ret (acts, _) => let '(used, m') := run_filter Op c t h g acts (None, m) in (fg_value used m', m') = filter_grad Op c t h m g
   | _ => False
   end.
 Proof. intros. apply gen_compute_filtered_grad_list_path_eq_model_. Qed.
 Print Assumptions gen_compute_filtered_grad_list_path_eq_model.
+
+(* ---- _precondition_and_grafting ------------------------------------------------------------------------------- *)
+(* G / S: what the grafting / the Shampoo preconditioner list return for the filtered gradient of the block (in the model:
+   graft_precond .. / shampoo_precond ..).  tags: 0 P = G    1 P = S    2 gn = |G|    3 sn = |P|    4 finfo of the norm dtype
+   5 sn += max(1e-16, tiny * eps) - the model works in binary64, where this is 1e-16 = graft_eps    6 gn /= sn    7 P *= gn.
+   The result is the expression of Optimizer.block_step: G during warm-up, otherwise S, rescaled to the norm of G when grafting. *)
+Section GraftPath.
+  Context {F : Type} (Op : ops F).
+
+  Definition run_graft (G S : vec (F:=F)) (acts : list Z) (st : vec * F * F) : vec * F * F :=
+    fold_left (fun st a =>
+                 let '(P, gn, sn) := st in
+                 if a =? 0 then (G, gn, sn)
+                 else if a =? 1 then (S, gn, sn)
+                 else if a =? 2 then (P, norm2 Op G, sn)
+                 else if a =? 3 then (P, gn, norm2 Op P)
+                 else if a =? 4 then st
+                 else if a =? 5 then (P, gn, fadd Op sn (graft_eps Op))
+                 else if a =? 6 then (P, fdiv Op gn sn, sn)
+                 else if a =? 7 then (vscale Op gn P, gn, sn)
+                 else st) acts st.
+
+  Lemma gen_precondition_and_grafting_path_eq_model_ (c : cfg (F:=F)) (use_grafting : bool) (G S P0 : vec) (x y : F) :
+    match GenC01.precondition_and_grafting_path use_grafting (match c_graft c with GNone => false | _ => true end) with
+    | Ret (acts, _) =>
+        fst (fst (run_graft G S acts (P0, x, y)))
+        = if use_grafting then G
+          else match c_graft c with
+               | GNone => S
+               | _ => vscale Op (fdiv Op (norm2 Op G) (fadd Op (norm2 Op S) (graft_eps Op))) S
+               end
+    | _ => False
+    end.
+  Proof. unfold GenC01.precondition_and_grafting_path. cbv zeta. destruct use_grafting; destruct (c_graft c); reflexivity. Qed.
+End GraftPath.
+
+Theorem gen_precondition_and_grafting_path_eq_model :
+  forall F (Op : ops F) (c : cfg (F:=F)) (use_grafting : bool) (G S P0 : vec) (x y : F),
+  match GenC01.precondition_and_grafting_path use_grafting (match c_graft c with GNone => false | _ => true end) with
+  | Ret (acts, _) =>
+      fst (fst (run_graft Op G S acts (P0, x, y)))
+      = if use_grafting then G
+        else match c_graft c with
+             | GNone => S
+             | _ => vscale Op (fdiv Op (norm2 Op G) (fadd Op (norm2 Op S) (graft_eps Op))) S
+             end
+  | _ => False
+  end.
+Proof. intros. apply gen_precondition_and_grafting_path_eq_model_. Qed.
+Print Assumptions gen_precondition_and_grafting_path_eq_model.
